@@ -1,6 +1,90 @@
+(* C08 — property theorems (statements only; proofs in ProofsOrder/ProofsLoad/ProofsMain).
+   H is SHA-1 (abstract). [load H b u]: the loader on torrent object b whose "info" dictionary
+   carries flag_unordered = u. *)
 From Coq Require Import List NArith ZArith Bool.
-From LTV.C08 Require Import Model Proofs.
+From LTV Require Import Common.Bytes.
+From LTV.C07 Require Import Model.
+From LTV.C08 Require Import Model ProofsOrder ProofsLoad ProofsMain.
+Import ListNotations.
+Local Open Scope N_scope.
 
-Theorem params_ok_now : Proofs.params_ok = true.
-Proof. exact Proofs.params_ok_now. Qed.
+Theorem params_ok_now : ProofsMain.params_ok = true.
+Proof. exact ProofsMain.params_ok_now. Qed.
 Print Assumptions params_ok_now.
+
+(* the sorted-adjacency check of parse_multi_files is sound for the UNSORTED list *)
+Theorem adjacent_check_sound : forall l : list path,
+  adjacent_prefix (sort_paths l) = false -> no_prefix l.
+Proof. exact ProofsOrder.adjacent_check_sound. Qed.
+Print Assumptions adjacent_check_sound.
+
+Theorem paths_contained : forall (H : bytes -> bytes) b u d root f,
+  load H b u = LOk d -> In f (d_files d) ->
+  frozen_path (set_root_dir root) f = set_root_dir root ++ path_as_string (f_path f) /\
+  strictly_inside (f_path f) /\ strictly_inside [d_name d].
+Proof. exact ProofsMain.paths_contained. Qed.
+Print Assumptions paths_contained.
+
+Theorem no_dup_no_prefix : forall (H : bytes -> bytes) b u d,
+  load H b u = LOk d -> no_prefix (map f_path (d_files d)).
+Proof. exact ProofsMain.no_dup_no_prefix. Qed.
+Print Assumptions no_dup_no_prefix.
+
+Theorem sizes_sum : forall (H : bytes -> bytes) b u d,
+  load H b u = LOk d ->
+  offsets_from 0 (d_files d) /\ sum_size (d_files d) = d_size d /\
+  (d_multi d = true -> d_size d < two63) /\ (d_meta d = false -> d_size d <> 0).
+Proof. exact ProofsMain.sizes_sum. Qed.
+Print Assumptions sizes_sum.
+
+Theorem piece_count_guarantee : forall (H : bytes -> bytes) b u d,
+  load H b u = LOk d ->
+  d_chunk_size d <> 0 /\
+  d_chunks d = ((d_size d + d_chunk_size d - 1) mod two64 / d_chunk_size d) mod two32 /\
+  20 * d_chunks d <= N.of_nat (length (d_pieces d)) /\
+  Forall (fun f => (f_r1 f, f_r2 f) = set_range (f_offset f) (f_size f) (d_chunk_size d)) (d_files d).
+Proof. exact ProofsMain.piece_count_guarantee. Qed.
+Print Assumptions piece_count_guarantee.
+
+Theorem piece_count_matches_small : forall (H : bytes -> bytes) b u d,
+  load H b u = LOk d -> d_size d < two63 -> d_chunk_size d < two32 ->
+  (d_size d + d_chunk_size d - 1) / d_chunk_size d < two32 ->
+  d_chunks d = (d_size d + d_chunk_size d - 1) / d_chunk_size d.
+Proof. exact ProofsMain.piece_count_matches_small. Qed.
+Print Assumptions piece_count_matches_small.
+
+(* the full piece-count clause is FALSE of the code as it is: computed witnesses *)
+Theorem piece_count_matches_refuted :
+  exists b d, load H0 b false = LOk d /\
+    d_chunks d <> (d_size d + d_chunk_size d - 1) / d_chunk_size d /\ d_pieces d = [] /\ d_chunks d = 0.
+Proof. exact ProofsMain.piece_count_matches_refuted. Qed.
+Print Assumptions piece_count_matches_refuted.
+
+Theorem pieces_length_exact_refuted :
+  exists b d, load H0 b false = LOk d /\ d_chunks d = 1 /\ N.of_nat (length (d_pieces d)) = 41.
+Proof. exact ProofsMain.pieces_length_exact_refuted. Qed.
+Print Assumptions pieces_length_exact_refuted.
+
+Theorem infohash_canonical : forall (H : bytes -> bytes) b u d m,
+  load H b u = LOk d -> as_map b = LOk m -> has_key_map m k_info = true ->
+  exists info_v, get_key m k_info = LOk info_v /\
+    (d_meta d = false -> d_infohash d = H (enc info_v)) /\
+    (d_meta d = true -> d_infohash d = d_pieces d).
+Proof. exact ProofsMain.infohash_canonical. Qed.
+Print Assumptions infohash_canonical.
+
+Theorem unordered_rejected : forall (H : bytes -> bytes) b d m,
+  as_map b = LOk m -> has_key_map m k_info = true -> load H b true <> LOk d.
+Proof. exact ProofsMain.unordered_rejected. Qed.
+Print Assumptions unordered_rejected.
+
+Theorem infohash_never_zero : forall (H : bytes -> bytes) b u d,
+  load H b u = LOk d -> d_infohash d <> zero_hash.
+Proof. exact ProofsMain.infohash_never_zero. Qed.
+Print Assumptions infohash_never_zero.
+
+(* "never anything but an input error" is FALSE of the code as it is: the all-zero magnet hash
+   reaches an internal_error in tracker::Manager::add_controller *)
+Theorem load_total_refuted : forall H : bytes -> bytes, load_uri H magnet_zero = LErr EInternal.
+Proof. exact ProofsMain.load_total_refuted. Qed.
+Print Assumptions load_total_refuted.
